@@ -39,6 +39,9 @@ WithDfs(P) == {<<"conde", << <<DfsSpin>>, BranchOf(p, "b2") >> >> : p \in P}
               \cup {<<"conde", << <<DfsSpin>>, BranchOf(p, "b2"), BranchOf(q, "b3") >> >> : p \in P, q \in {<<>>, <<Always>>}}
               \cup {<<"conde", << <<DfsTwo("b1")>>, <<DfsSpin>>, BranchOf(p, "b3") >> >> : p \in P}
               \cup {<<"conde", << BranchOf(<<Spin>>, "b1"), BranchOf(p, "b2") >> >> : p \in P}
+              (* a disjunction with ONE clause that never answers, as a disjunct (no eager run to the first answer) *)
+              \cup {<<"conde", << << <<"conde", << <<Never>> >> >> >>, BranchOf(p, "b2") >> >> : p \in P}
+              \cup {<<"conde", << BranchOf(p, "b1"), << <<"conde", << <<Spin>> >> >> >> >> >> : p \in P}
               \cup {<<"conde", << <<DfsCondSpin("x")>>, BranchOf(p, "b2") >> >> : p \in P}
               \cup {<<"conde", << BranchOf(p, "b1"), <<DfsCondSpin("x")>>, BranchOf(<<>>, "b3") >> >> : p \in P}
 FinScope == Conde2(FinPrefixes) \cup Conde3(FinPrefixes) \cup Nested(FinPrefixes) \cup Under(FinPrefixes)
